@@ -243,6 +243,9 @@ def minimise(mod, scn, viol, max_execs=300, max_s=60.0):
     t0 = time.monotonic()
     execs = 0
     cur, cur_v = scn, viol
+    # the part of a signature that must persist while shrinking; parameter predicates (the suffix)
+    # are re-evaluated on the minimised scenario
+    base = getattr(mod, 'sig_base', lambda s: s)
     progress = True
     while progress and execs < max_execs and time.monotonic() - t0 < max_s:
         progress = False
@@ -254,7 +257,7 @@ def minimise(mod, scn, viol, max_execs=300, max_s=60.0):
                 v, _, _, _ = execute(mod, cand)
             except Exception:
                 continue
-            if v is not None and v['sig'] == cur_v['sig']:
+            if v is not None and base(v['sig']) == base(cur_v['sig']):
                 cur, cur_v = cand, v
                 progress = True
                 break
@@ -382,6 +385,7 @@ def campaign(prop, tier, verif_seed, nruns=None, jobs=None, out=sys.stdout):
     reported = []
     kf_hits = {}
     seen_sigs = set()
+    final_sigs = set()
     for idx, scn, viol in viols:
         if viol['sig'] in seen_sigs:
             continue
@@ -394,6 +398,9 @@ def campaign(prop, tier, verif_seed, nruns=None, jobs=None, out=sys.stdout):
         ok, txt = replay_fresh(path)
         if not ok:
             raise HarnessFault('violation %s from run %d does not replay in a fresh process:\n%s' % (mviol['sig'], idx, txt[-2000:]))
+        if mviol['sig'] in final_sigs:
+            continue
+        final_sigs.add(mviol['sig'])
         e = kf.match(prop, mviol['sig'])
         if e is not None:
             kf_hits[e['id']] = kf_hits.get(e['id'], 0) + 1
